@@ -1,4 +1,6 @@
 import CCT.Props.C13
+import CCT.Model.RootSigning
+import CCT.Props.C09
 /-!
 # C10 — OpenPGP-wrapped signatures follow RFC 4880 v4
 
@@ -78,5 +80,74 @@ theorem counts_gpg_iff (C : CryptoFns) (auth : List PStr) (data : Bytes) (k : PS
     refine ⟨h1, h2, ?_⟩
     simp only [if_true]
     exact ⟨h3, (verifyGpg_iff C sig _ data h3 h1).mp h4⟩
+
+/-! ## the library's own GPG signing path (`root_signing.py`), model `CCT/Model/RootSigning.lean` -/
+
+/-- a GnuPG-style signer that conforms to RFC 4880 for the ed25519 key with seed `seed`: over `data` it returns some non-empty hashed-header
+bytes `hdr` together with the key's signature over `SHA-256(data ‖ hdr ‖ 04 ff ‖ be32 len hdr)`, and it exports the key's raw public value -/
+def ConformingSigner (C : CryptoFns) (G : GpgBackend) (fpr : PStr) (seed : Bytes) : Prop :=
+  (∀ data, ∃ hdr : Bytes, hdr ≠ [] ∧ (∀ b ∈ hdr, b < 256) ∧
+      G.createSignature data fpr = .ok (hexOfBytes hdr, hexOfBytes (C.sign seed (gpgDigest C data hdr)))) ∧
+  G.exportQ fpr = .ok (hexOfBytes (C.pubOf seed))
+
+theorem gpgEntry_lookups (a b : J) :
+    dictGet (ps! "other_headers") [(ps! "other_headers", a), (ps! "signature", b)] = some a ∧
+    dictGet (ps! "signature") [(ps! "other_headers", a), (ps! "signature", b)] = some b ∧
+    dictGet (ps! "see_also") [(ps! "other_headers", a), (ps! "signature", b)] = none ∧
+    keysAre [(ps! "other_headers", a), (ps! "signature", b)] [ps! "other_headers", ps! "signature"] = true := by
+  refine ⟨by simp [dictGet], ?_, ?_, ?_⟩
+  · have : ¬ (ps! "other_headers" : PStr) = ps! "signature" := by decide
+    simp [dictGet, this]
+  · have h1 : ¬ (ps! "other_headers" : PStr) = ps! "see_also" := by decide
+    have h2 : ¬ (ps! "signature" : PStr) = ps! "see_also" := by decide
+    simp [dictGet, h1, h2]
+  · simp [keysAre, keysetEq, dictKeys]
+
+theorem gpgEntry_shape (oh sg : PStr) (h1 : LowerHex oh) (h2 : sg.length = 128) (h3 : ∀ c ∈ sg, isLowerHexDigit c = true) :
+    GpgShape (.obj [(ps! "other_headers", .str oh), (ps! "signature", .str sg)]) := by
+  obtain ⟨l1, l2, l3, l4⟩ := gpgEntry_lookups (.str oh) (.str sg)
+  exact ⟨_, rfl, Or.inl l4, ⟨_, l1, _, rfl, h1⟩, ⟨_, l2, _, rfl, h2, h3⟩, fun f hf => by rw [l3] at hf; cases hf⟩
+
+/-- **detached signatures of a conforming GnuPG signer, transcribed by the library's GPG signing path into an entry filed under the key's raw
+public value, are accepted**: after `sign_root_metadata_dict_via_gpg` the envelope verifies in OpenPGP mode with that key authorized -/
+theorem gpg_path_interoperates (C : Crypto) (G : GpgBackend) (fpr : PStr) (seed : Bytes) (hs : seed.length = 32)
+    (hf : HexN 40 (.str fpr)) (hnorm : normalizeFingerprint fpr = fpr) (hG : ConformingSigner C.toCryptoFns G fpr seed)
+    (env : J) (entries : List (PStr × J)) (signed : J) (hp : EnvParts env entries signed) :
+    ∃ env', signRootMdDictViaGpg G true env (.str fpr) = .ok env' ∧
+      verifySignableJ C.toCryptoFns env' (.arr [.str (C09.pubHex C.toCryptoFns seed)]) (.int 1) true = .ok () := by
+  obtain ⟨hcs, hq⟩ := hG
+  obtain ⟨hdr, hne, hb, hsig⟩ := hcs (ser signed)
+  obtain ⟨hsg, top, rfl, h1, h2⟩ := hp
+  have hfp := (checkGpgFingerprint_iff _).mpr hf
+  let entry : J := .obj [(ps! "other_headers", .str (hexOfBytes hdr)), (ps! "signature", .str (hexOfBytes (C.sign seed (gpgDigest C.toCryptoFns (ser signed) hdr))))]
+  have hcomp : signRootMdDictViaGpg G true (.obj top) (.str fpr) =
+      .ok (.obj (dictSet top (ps! "signatures") (.obj (dictSet entries (C09.pubHex C.toCryptoFns seed) entry)))) := by
+    simp only [signRootMdDictViaGpg, checkSslib, if_true, okU, bind, Except.bind, hsg, Bool.not_true, Bool.false_eq_true, if_false,
+      dictIndex_some h2, dictIndex_some h1, signViaGpg, hfp, checkBytesLike, strOf_str, hsig, fetchKeyvalFromGpg, hnorm, hq, pure, Except.pure,
+      C09.pubHex, entry]
+  refine ⟨_, hcomp, ?_⟩
+  have hp' : EnvParts (.obj (dictSet top (ps! "signatures") (.obj (dictSet entries (C09.pubHex C.toCryptoFns seed) entry))))
+      (dictSet entries (C09.pubHex C.toCryptoFns seed) entry) signed := by
+    refine ⟨?_, _, rfl, dictGet_dictSet_same _ _ _, ?_⟩
+    · simp only [isSignableJ, Bool.and_eq_true] at hsg ⊢
+      exact ⟨keysetEq_dictSet_existing _ _ _ _ hsg.1 (by simp), by rw [dictGet_dictSet_same]⟩
+    · rw [dictGet_dictSet_other _ _ _ (by decide)]; exact h2
+  refine C02.verifySignable_complete C.toCryptoFns _ _ _ true _ signed [.str (C09.pubHex C.toCryptoFns seed)] 1 hp' rfl ?_ rfl (by decide) ?_
+  · intro k hk; simp at hk; subst hk; exact C09.pubHex_key C seed hs
+  · refine ⟨[C09.pubHex C.toCryptoFns seed], by simp, by simp, ?_⟩
+    intro k hk; simp at hk; subst hk
+    refine ⟨entry, mem_dictSet_self _ _ _, C09.pubHex_key C seed hs, by simp, ?_⟩
+    simp only [if_true]
+    have hshape : GpgShape entry :=
+      gpgEntry_shape _ _ (lowerHex_hexOfBytes hdr hne) (by rw [hexOfBytes_length, C.sign_len seed _ hs]) (hexOfBytes_lower _)
+    refine ⟨hshape, ?_⟩
+    obtain ⟨l1, l2, _, _⟩ := gpgEntry_lookups (.str (hexOfBytes hdr)) (.str (hexOfBytes (C.sign seed (gpgDigest C.toCryptoFns (ser signed) hdr))))
+    simp only [entry, entryField, l1, l2, Option.getD_some, strOf_str, C09.pubHex]
+    rw [unhex_hexOfBytes _ (C.pub_byte seed hs), unhex_hexOfBytes _ hb, unhex_hexOfBytes _ (C.sign_byte seed _ hs)]
+    exact C.correct seed _ hs
+
+/-- without the optional dependency the GPG path fails with ImportError before anything else happens -/
+theorem gpg_path_needs_dependency (G : GpgBackend) (env fpr : J) : signRootMdDictViaGpg G false env fpr = .error .importErr := by
+  simp [signRootMdDictViaGpg, checkSslib, bind, Except.bind]
 
 end CCT.C10
